@@ -78,6 +78,8 @@ func c11Program(pg *gen.PG, i int) (string, []*canon.Node) {
   (trace! @fut%[1]s)
   (trace! (count big%[1]s))
   (trace! (let (x %[2]d) ((fn (x) (let (x (+ x 1)) x)) x)))
+  (def let-race%[1]s (fn (n acc) (if (< n 1) acc (let (fu (future (let (k 1) (+ k %[2]d))) lit1 1 lit2 "two" lit3 lit1 lit4 :four) (let-race%[1]s (- n 1) (+ acc (- @fu %[2]d) lit3))))))
+  (trace! (list :let-with-future (let-race%[1]s 25 0)))
   (defmacro two-temps%[1]s (fn (a b) (let (x (gensym) y (gensym)) (list 'let (list x a y b) (list 'list x y)))))
   (def temps-loop%[1]s (fn (n bad) (if (< n 1) bad (temps-loop%[1]s (- n 1) (if (= (two-temps%[1]s 1 %[2]d) (list 1 %[2]d)) bad (+ bad 1))))))
   (trace! (list :gensym-temporaries-collided (temps-loop%[1]s 60 0)))
